@@ -20,6 +20,7 @@ def consts(files=("f",), sessions=("S1", "S2"), uid=5, lines=4, commits=2, steps
             "BaseLines": base, "Dev": list(dev)}
 
 
+F3_ONLY = ("stale_entry_applied_by_line_number",)
 G_ALL = ["G_C01_Exact", "G_C02_Carried", "G_C01_OnlyAdded", "G_C03_Notes", "G_C03_Blame", "G_C05_WellFormed"]
 
 EDIT_COMMIT = ("edit", "ckpt", "commit_all")
@@ -85,7 +86,9 @@ PLANS = {
                  variants=RENDERS[:3], per_tag=1),
         ],
         "thorough": [
-            dict(name="design", consts=consts(alphabet=CARRY + ("amend",), steps=6, lines=3, commits=3, dev=()),
+            # (the repair of F3 is not modelled end to end - refreshing a stale entry also needs the stash path to drop
+            # it - so that one deviation stays in the design-level runs that contain stash / restore)
+            dict(name="design", consts=consts(alphabet=CARRY + ("amend",), steps=6, lines=3, commits=3, dev=F3_ONLY),
                  invariants=G_ALL, model_only=True, timeout=2400),
             dict(name="design-rewrite", consts=consts(files=("f", "g"), alphabet=IREBASE + ("rebase", "cherry", "conflict"),
                                                       steps=9, commits=8, uid=5, lines=4, sessions=("S1",), dev=()),
@@ -117,7 +120,7 @@ PLANS = {
                  invariants=G_ALL, budget=320, variants=RENDERS[:4]),
         ],
         "thorough": [
-            dict(name="design", consts=consts(alphabet=DESTRUCTIVE, steps=6, commits=3, lines=3, dev=()),
+            dict(name="design", consts=consts(alphabet=DESTRUCTIVE, steps=6, commits=3, lines=3, dev=F3_ONLY),
                  invariants=G_ALL, model_only=True, timeout=2400),
             dict(name="destructive", consts=consts(alphabet=DESTRUCTIVE, steps=7, commits=3, lines=3),
                  invariants=G_ALL, budget=3000, variants=RENDERS, per_tag=3, timeout=2400),
